@@ -111,6 +111,13 @@ func (*c01) Corpus() []any {
 		un := mkOp("uninstall", 0, eng.Flags{KeepHistory: true})
 		un.WFail = ipt(1)
 		out = append(out, eng.History{Backend: b, Steps: []eng.Step{{Op: mkOp("install", 1, eng.Flags{}, "a")}, {Op: un}}})
+		// uninstall of a history kept by an earlier uninstall --keep-history, with more than one revision:
+		// a plain uninstall must leave no revision at all (the already-uninstalled branch of Uninstall.Run
+		// purges every record, not only the newest); then the name is free again
+		out = append(out, eng.History{Backend: b, Steps: []eng.Step{
+			{Op: mkOp("install", 1, eng.Flags{}, "a")}, {Op: mkOp("upgrade", 2, eng.Flags{}, "a", "b")},
+			{Op: mkOp("upgrade", 3, eng.Flags{}, "a")}, {Op: mkOp("uninstall", 0, eng.Flags{KeepHistory: true})},
+			{Op: mkOp("uninstall", 0, eng.Flags{})}, {Op: mkOp("install", 4, eng.Flags{}, "a")}}})
 	}
 	// more than nine revisions (storage keys ...v10 sort before ...v2), then a history limit: pruning must
 	// work on the revision order, not on the order the driver lists the records in
